@@ -203,3 +203,16 @@ Theorem C02_iter_is_source : forall fuel cur (toks : list bytes) t, (length toks
     /\ Forall2 ImpProofsK.fq_item_ok (Bio.Model.Fastq.decode_toks t toks) out.
 Proof. exact ImpProofsK.imp_fastq_iter. Qed.
 Print Assumptions C02_iter_is_source.
+
+Theorem C02_marshal_is_source : forall r,
+  ImpGen.imp_fastq_Fastq_MarshalText (ImpProofsG.fq_of r)
+  = match Bio.Model.Fastq.marshal_text r with Ok b => GoSem.Ret (b, false) | _ => GoSem.Panics end.
+Proof. exact ImpProofsG.imp_Fastq_MarshalText. Qed.
+Print Assumptions C02_marshal_is_source.
+
+Theorem C02_reader_is_source : forall fuel cur (toks : list bytes) t, (length toks + 1 < fuel)%nat ->
+  exists s' out,
+    ImpGen.imp_fastqrd_Reader fuel (GoSem.Scanner cur toks (ImpProofsK.scan_code t) false) = GoSem.Ret (s', out)
+    /\ Forall2 ImpProofsK.fq_item_ok (Bio.Model.Fastq.decode_toks t toks) out.
+Proof. exact ImpProofsK.imp_fastq_Reader. Qed.
+Print Assumptions C02_reader_is_source.
